@@ -3,7 +3,9 @@ from simpex import deadline
 from simpex.runner import CheckSpec
 from checks.c01_c03_engine import COMPONENTS
 
-RULE = ('one call with timeout T in {-1 (instance default), None, 0, 0.01..30 s} on entry point {expect, expect_exact, expect_list, '
+RULE = ('(a) complete sweep of the deadline tie: the matching data placed at every microsecond from 40 us before to 40 us after a '
+        '10 ms deadline, for 4 transports x {expect, expect_exact, read_nonblocking} x two syscall-cost tables; (b) seeded: '
+        'one call with timeout T in {-1 (instance default), None, 0, 0.01..30 s} on entry point {expect, expect_exact, expect_list, '
         'expect_loop, read_nonblocking, waitnoecho} x transport {pty, fd, socket, popen} x select/poll x bytes/unicode, against a '
         'peer that is silent, trickles non-matching bytes every T/50..T/2, bursts at deadline-20ms..deadline+20ms, closes its '
         'terminal but lives on for 5..1000 s, dies, closes, or produces the match late (up to 1 h of virtual time for T=None). '
@@ -29,4 +31,5 @@ def tag(scn, v):
 def spec(pid):
     return CheckSpec('C05', 'deadlines are overall bounds', deadline.generate, deadline.run, level='exploration',
                      runs={'quick': 30000, 'thorough': 600000}, budget_s={'quick': 45, 'thorough': 900},
-                     rule=RULE, assumptions=ASSUME, components=COMPONENTS, nontrivial=nontrivial, tag=tag)
+                     rule=RULE, assumptions=ASSUME, components=COMPONENTS, nontrivial=nontrivial, tag=tag,
+                     enumerate_fn=deadline.enumerate_scenarios)
